@@ -28,6 +28,7 @@ func init() {
 			{Name: "scripted", Shards: 12, Fn: c10Scripted},
 			{Name: "codemeter", Shards: 4, Fn: c10CodeMeter},
 			{Name: "conc", Race: true, Shards: 4, Fn: c10Conc},
+			{Name: "burst", Race: true, Shards: 4, Fn: c10Burst},
 		},
 	})
 }
@@ -714,4 +715,111 @@ func c10Conc(c *Ctx) {
 		c.Count("conc_nontrivial", 1)
 	})
 	c.Require("conc_nontrivial", 2)
+}
+
+// c10Burst: "weights change at most once per back-off interval" under concurrency. Two identical rebalancers with the
+// same constant scripted ratings live on the same frozen clock. Each round the clock moves just past the back-off, then
+// one instance finishes 8 requests concurrently at that instant and its twin 8 requests one after the other: only the
+// first completion may adjust, so both must end the round with the same weights (one adjustment step).
+func c10Burst(c *Ctx) {
+	c.Cases("burst", c.N(150, 3000), func(i int, r *rand.Rand) {
+		backoff := pick(r, []time.Duration{time.Second, 10 * time.Second})
+		freeze(baseTime.Add(time.Duration(r.Int64N(1e9))))
+		defer unfreeze()
+		n := 2 + r.IntN(4)
+		conf := make([]int, n)
+		rating := make([]float64, n)
+		for k := range conf {
+			conf[k] = pick(r, []int{1, 1, 2, 3, 5})
+			if r.IntN(3) == 0 {
+				rating[k] = 0.9
+			}
+		}
+		rating[r.IntN(n)] = 0.9
+		type inst struct {
+			rr *roundrobin.RoundRobin
+			rb *roundrobin.Rebalancer
+		}
+		mk := func(yield bool) (*inst, error) {
+			rr, _ := roundrobin.New(http.HandlerFunc(func(w http.ResponseWriter, req *http.Request) {}))
+			k := 0
+			opts := []roundrobin.RebalancerOption{roundrobin.RebalancerBackoff(backoff), roundrobin.RebalancerMeter(func() (roundrobin.Meter, error) {
+				m := &scriptedMeter{ready: true, rating: rating[k%n]}
+				k++
+				return m, nil
+			})}
+			if yield {
+				yl := &yieldLogger{}
+				yl.seed.Store(r.Uint64())
+				opts = append(opts, roundrobin.RebalancerLogger(yl))
+			}
+			rb, err := roundrobin.NewRebalancer(rr, opts...)
+			if err != nil {
+				return nil, err
+			}
+			for k := 0; k < n; k++ {
+				if err := rb.UpsertServer(mustURL(sfmt("http://b%d.test/", k)), roundrobin.Weight(conf[k])); err != nil {
+					return nil, err
+				}
+			}
+			return &inst{rr, rb}, nil
+		}
+		A, err := mk(true)
+		if err != nil {
+			c.Violation("constructor", err.Error(), nil)
+			return
+		}
+		B, err := mk(false)
+		if err != nil {
+			c.Violation("constructor", err.Error(), nil)
+			return
+		}
+		weights := func(x *inst) []int {
+			ws := make([]int, n)
+			for k := range ws {
+				ws[k], _ = x.rr.ServerWeight(mustURL(sfmt("http://b%d.test/", k)))
+			}
+			return ws
+		}
+		rounds := 3 + r.IntN(6)
+		changed := 0
+		var trail [][2][]int
+		for round := 0; round < rounds; round++ {
+			advance(backoff + time.Duration(1+r.IntN(1000)))
+			before := weights(A)
+			var wg sync.WaitGroup
+			start := make(chan struct{})
+			for g := 0; g < 8; g++ {
+				wg.Add(1)
+				go func() {
+					defer wg.Done()
+					<-start
+					A.rb.ServeHTTP(httptest.NewRecorder(), httptest.NewRequest("GET", "http://c.test/", nil))
+				}()
+			}
+			close(start)
+			wg.Wait()
+			for g := 0; g < 8; g++ {
+				B.rb.ServeHTTP(httptest.NewRecorder(), httptest.NewRequest("GET", "http://c.test/", nil))
+			}
+			wa, wb := weights(A), weights(B)
+			trail = append(trail, [2][]int{wa, wb})
+			c.Count("burst_rounds", 1)
+			if !eqInts(before, wa) {
+				changed++
+			}
+			if !eqInts(wa, wb) {
+				c.Eval()
+				c.Violation("backoff/several-adjustments-at-one-instant", sfmt("back-off %v, configured %v, ratings %v: round %d: 8 requests finishing concurrently at one instant just past the back-off moved the weights %v -> %v; finishing one after the other (twin) they end at %v: more than one adjustment within a back-off interval", backoff, conf, rating, round, before, wa, wb),
+					map[string]any{"configured": conf, "ratings": rating, "weights_concurrent_vs_sequential_per_round": trail})
+				return
+			}
+		}
+		c.Eval()
+		if changed >= 2 {
+			c.Nontrivial(sfmt("burst/%v/%v/%v/%d", conf, rating, backoff, rounds))
+			c.Count("burst_nontrivial", 1)
+		}
+	})
+	c.Require("burst_nontrivial", 2)
 }
